@@ -1,4 +1,5 @@
 import Proofs.Observe.Causes
+import Proofs.Observe.FailCause
 import Proofs.Observe.StepSpec4
 /-!
 # C08 — Observe server: rising numbers, latest state sent, cancellation final, no leak
@@ -187,7 +188,27 @@ theorem step_of_done {c : State} (h : Inv c) {sv : Nat} (hd : doneAt c sv) (e : 
     · show ∀ o ∈ (exec _ sv (stepTask c.value t plan acc).2).2, _
       rw [hst]; intro o ho; cases ho
     · rw [hself.2]; show some (stepTask c.value t plan acc).1 = _; rw [hst]
+  by_cases hs' : ∃ plan acc, e.ev = .stepFail sv plan acc
+  · obtain ⟨plan, acc, he⟩ := hs'
+    obtain ⟨t, hf, hdone⟩ := hd
+    have hf0 : findTask { c with ml := MsgLayer.setNow c.ml e.time } sv = some t := hf
+    obtain ⟨happ, g, hg, hfind⟩ := handle_self_stepFail hf0 plan acc
+    have hrun : t.runnable = false := (h.ok t (findTask_some hf).1).wDone hdone
+    have hst : stepTask c.value t plan acc = (t, []) := by simp [stepTask, hrun]
+    simp only [step, he]
+    refine ⟨?_, t, ?_, hdone⟩
+    · intro o ho
+      cases hsp : speaks sv o with
+      | false => rfl
+      | true =>
+        have : o ∈ app (exec { c with ml := MsgLayer.setNow c.ml e.time } sv (stepTask c.value t plan acc).2).2 := by
+          rw [← happ]; exact mem_app.mpr ⟨ho, isApp_of_speaks hsp⟩
+        rw [hst] at this; cases this
+    · rw [hfind]
+      show some (g (stepTask c.value t plan acc).1) = _
+      rw [hst, hg.done t hdone]
   · have hq := Quiescent_handle h0 e.ev sv (fun plan acc he => hs ⟨plan, acc, he⟩)
+      (fun plan acc he => hs' ⟨plan, acc, he⟩)
     exact ⟨hq.silent, hq.done hd⟩
 
 /-- **C08 (nothing after the end).** Once the render task of a registration has ended — by a final
@@ -229,7 +250,25 @@ theorem step_cb {c : State} (h : Inv c) (sv : Nat) (e : TEv) :
       have := stepTask_cbs c.value t plan acc
       show _ = (stepTask c.value t plan acc).1.cbRuns
       omega
+  by_cases hs' : ∃ plan acc, e.ev = .stepFail sv plan acc
+  · obtain ⟨plan, acc, he⟩ := hs'
+    simp only [step, he]
+    cases hf : findTask c sv with
+    | none =>
+      have hf0 : findTask { c with ml := MsgLayer.setNow c.ml e.time } sv = none := hf
+      rw [handle_absent_stepFail hf0]
+      simp [cancelledCount, cbOf, hf0, hf]
+    | some t =>
+      have hf0 : findTask { c with ml := MsgLayer.setNow c.ml e.time } sv = some t := hf
+      obtain ⟨happ, g, hg, hfind⟩ := handle_self_stepFail hf0 plan acc
+      rw [← cancelledCount_app, happ, cancelledCount_app]
+      simp only [cbOf, hfind, hf]
+      rw [(exec_outs sv _ _).2.1, hg.cb]
+      have := stepTask_cbs c.value t plan acc
+      show _ = (stepTask c.value t plan acc).1.cbRuns
+      omega
   · have hq := Quiescent_handle h0 e.ev sv (fun plan acc he => hs ⟨plan, acc, he⟩)
+      (fun plan acc he => hs' ⟨plan, acc, he⟩)
     simp only [step]
     rw [cancelledCount_of_silent hq.silent, hq.cb]
     simp [cbOf, findTask_setNow]
@@ -281,7 +320,28 @@ theorem step_nums {c : State} (h : Inv c) (sv : Nat) (e : TEv) :
       · right
         simp only [baseOf, hself.2, hf]
         exact hn.2 hd
+  by_cases hs' : ∃ plan acc, e.ev = .stepFail sv plan acc
+  · obtain ⟨plan, acc, he⟩ := hs'
+    simp only [step, he]
+    cases hf : findTask c sv with
+    | none =>
+      have hf0 : findTask { c with ml := MsgLayer.setNow c.ml e.time } sv = none := hf
+      rw [handle_absent_stepFail hf0]
+      exact ⟨by simp [obsSeq], Or.inr (by simp [obsSeq, baseOf, hf0, hf])⟩
+    | some t =>
+      have hf0 : findTask { c with ml := MsgLayer.setNow c.ml e.time } sv = some t := hf
+      obtain ⟨happ, g, hg, hfind⟩ := handle_self_stepFail hf0 plan acc
+      have hn := stepTask_nums c.value t plan acc
+      rw [← obsSeq_app, happ, obsSeq_app, (exec_outs sv _ _).1]
+      have hb : baseOf c sv = base t := by simp [baseOf, hf]
+      refine ⟨by rw [hb]; exact hn.1, ?_⟩
+      by_cases hd : (stepTask c.value t plan acc).1.phase = .done
+      · exact Or.inl ⟨_, hfind, by rw [hg.done _ hd]; exact hd⟩
+      · right
+        simp only [baseOf, hfind, hf, hg.base]
+        exact hn.2 hd
   · have hq := Quiescent_handle h0 e.ev sv (fun plan acc he => hs ⟨plan, acc, he⟩)
+      (fun plan acc he => hs' ⟨plan, acc, he⟩)
     simp only [step]
     rw [obsSeq_of_silent hq.silent]
     exact ⟨rfl, Or.inr (by rw [hq.base]; simp [baseOf, findTask_setNow])⟩
@@ -472,6 +532,84 @@ theorem C08_end_last_notification {c : State} (h : Inv c) {t : Task} (ht : t ∈
     have := stepTask_cbs c.value t plan acc
     omega
 
+/-- **C08 (end cause: transport error reported synchronously, from inside the send).** The
+transport may report the error for the observer while the notification is being handed to it —
+udp6 does when `sendmsg()` fails: `error_received` → `dispatch_error`, all before `send()` returns,
+that is *inside* `pipe.add_response` of the render task itself (`Ev.stepFail`).  If a step of the
+task of registration `t` reports such a failed send, then: the datagram was this registration's (its
+remote, its token); nothing at all is transmitted in that step; and every registration of that
+endpoint — the one whose notification was being sent among them, whatever it does in the rest of
+that step — is `Stopped`: out of the table of unfinished requests, its task ended or cancelled
+(so that `C08_cancelled_task_ends` applies: its next step runs the cancellation callback and
+nothing else).  A cancellation the task brings about itself is not lost. -/
+theorem C08_end_sync_transport_error {c : State} (h : Inv c) {t : Task} (ht : t ∈ c.tasks)
+    (hm : c.ml.shutMsg = false) (hs : c.ml.shutTok = false) (plan : Plan) (acc : Bool)
+    {tm : Nat} {r : Remote} {w : Wire}
+    (hf : Out.sendFailed tm r w ∈ (handle c (.stepFail t.srv plan acc)).2) :
+    r = t.remote ∧ w.token = t.token ∧
+    (∀ tm' r' w', Out.net (.send tm' r' w') ∉ (handle c (.stepFail t.srv plan acc)).2) ∧
+    Stopped (handle c (.stepFail t.srv plan acc)).1 t.srv ∧
+    ∀ i ∈ c.ml.incoming, i.remote = r → Stopped (handle c (.stepFail t.srv plan acc)).1 i.srv := by
+  have hfind := findTask_of_mem h.wf ht
+  simp only [handle, hfind] at hf ⊢
+  obtain ⟨⟨i, hi, hisv, hir, hit⟩, hstops, hnosend⟩ :=
+    execF_failed t.srv (stepTask c.value t plan acc).2 c h.wf.sinv hm hs tm r w hf
+  obtain ⟨ti, hti, h1, _, h3, h4⟩ := h.pipe.p1 i hi
+  have : ti = t := task_unique h.wf hti ht (h1.trans hisv)
+  subst this
+  have hsrv := execF_srv ti.srv (stepTask c.value ti plan acc).2 c h.wf.sinv
+  have hdl := execF_dsrvs ti.srv (stepTask c.value ti plan acc).2 c
+  have hstopped : ∀ j, Out.stop j ∈ (execF c ti.srv (stepTask c.value ti plan acc).2).2.2 →
+      Stopped (absorb (putTask (execF c ti.srv (stepTask c.value ti plan acc).2).1 (stepTask c.value ti plan acc).1)
+        (execF c ti.srv (stepTask c.value ti plan acc).2).2.2) j := by
+    intro j hj
+    have hst := (stops_iff _ _).mpr hj
+    refine ⟨?_, ?_⟩
+    · intro i' hi' hsv'
+      rcases hsrv.inc i' hi' with ⟨_, hns⟩ | ⟨r0, w0, hd, _⟩
+      · rw [hsv', hst] at hns; cases hns
+      · have : i'.srv ∈ dsrvs (execF c ti.srv (stepTask c.value ti plan acc).2).2.2 := mem_dsrvs.mpr ⟨r0, w0, hd⟩
+        rw [hdl] at this; cases this
+    · intro t' ht' hsv'
+      rw [show (absorb (putTask (execF c ti.srv (stepTask c.value ti plan acc).2).1 (stepTask c.value ti plan acc).1)
+          (execF c ti.srv (stepTask c.value ti plan acc).2).2.2).tasks =
+          (putTask (execF c ti.srv (stepTask c.value ti plan acc).2).1 (stepTask c.value ti plan acc).1).tasks.map
+            (fun y => if stops (execF c ti.srv (stepTask c.value ti plan acc).2).2.2 y.srv then cancelTask y else y) ++
+          delivered (execF c ti.srv (stepTask c.value ti plan acc).2).2.2 from rfl,
+        delivered_nil_of_dsrvs hdl, List.append_nil] at ht'
+      obtain ⟨y, _, rfl⟩ := List.mem_map.mp ht'
+      have hy : y.srv = j := by rw [← (absorbTask_id _ y).1]; exact hsv'
+      simp only [hy, hst, ↓reduceIte]
+      exact cancelTask_not_live y
+  refine ⟨hir.trans h4.symm, hit.trans h3.symm, hnosend, ?_, ?_⟩
+  · have := hstops i hi hir.symm
+    rw [hisv] at this
+    exact hstopped _ this
+  · intro j hj hjr
+    exact hstopped _ (hstops j hj hjr)
+
+/-- **C08 (a step with a failing send is an ordinary step for the resource).** Whatever the
+transport does to the datagram, the application side of the step is the same: the step with a
+failing send calls `render`, puts responses on the pipe (`Out.notify` is the call of
+`pipe.add_response`; what is put on a pipe that has ended is discarded), reports counts and runs
+the cancellation callback exactly as the ordinary step of the same task in the same state does, in
+the same order; and the task comes out of it with the same next Observe number, callback counter
+and ghost record of what it notified last — only possibly cancelled.  So everything proved about
+`Ev.step` above (`C08_loop_end_kinds`, `C08_end_last_notification`, `C08_sent_version_was_notified`)
+carries over to `Ev.stepFail`. -/
+theorem C08_failing_step_like_ordinary {c : State} (h : Inv c) {t : Task} (ht : t ∈ c.tasks)
+    (plan : Plan) (acc : Bool) :
+    app (handle c (.stepFail t.srv plan acc)).2 = app (handle c (.step t.srv plan acc)).2 ∧
+    ∃ t' t'', findTask (handle c (.step t.srv plan acc)).1 t.srv = some t' ∧
+      findTask (handle c (.stepFail t.srv plan acc)).1 t.srv = some t'' ∧
+      base t'' = base t' ∧ t''.cbRuns = t'.cbRuns ∧ t''.sentVer = t'.sentVer ∧ t''.lastSent = t'.lastSent ∧
+      (t'.phase = .done → t'' = t') := by
+  have hf := findTask_of_mem h.wf ht
+  have hself := handle_self_step hf plan acc
+  obtain ⟨happ, g, hg, hfind⟩ := handle_self_stepFail hf plan acc
+  refine ⟨by rw [happ, hself.1], _, _, hself.2, hfind, hg.base _, hg.cb _, (hg.sent _).1, (hg.sent _).2,
+    hg.done _⟩
+
 -- the observer count ------------------------------------------------------------------------------------
 
 /-- **C08 (no leak).** A registration whose task has ended is neither in the resource's set of
@@ -566,9 +704,9 @@ trigger, a deregistration, the end of a render, a step of *another* task leave `
 `lastSent` of registration `sv` as they are (a registration that does not exist yet counts as
 `(0, false)`, which is what a new task starts with). -/
 theorem C08_sent_version_only_moves_in_steps {c : State} (h : Inv c) (ev : Ev) (sv : Nat)
-    (hne : ∀ plan acc, ev ≠ .step sv plan acc) :
+    (hne : ∀ plan acc, ev ≠ .step sv plan acc) (hne' : ∀ plan acc, ev ≠ .stepFail sv plan acc) :
     sentOf (handle c ev).1 sv = sentOf c sv :=
-  (Quiescent_handle h ev sv hne).sent
+  (Quiescent_handle h ev sv hne hne').sent
 
 /-
 Full statement of "no further notification is ever sent": once a registration has ended, no
@@ -634,6 +772,7 @@ example : (run c08Init c08Run).2.map (fun o => match o with
     | .net (.deliver sv _ _) => ("deliver", sv, 0, 0, 0)
     | .net (.stop sv) => ("stop", sv, 0, 0, 0)
     | .net _ => ("other", 0, 0, 0, 0)
+    | .sendFailed t _ w => ("failed", t, w.mid, w.obs.getD 99, w.body)
     | .count n => ("count", n, 0, 0, 0)
     | .cancelled sv => ("cancelled", sv, 0, 0, 0)
     | .render sv v => ("render", sv, v, 0, 0)
@@ -674,6 +813,7 @@ def c08Show (os : List Out) : List (String × Nat × Nat × Nat × Nat) :=
     | .net (.deliver sv _ _) => ("deliver", sv, 0, 0, 0)
     | .net (.stop sv) => ("stop", sv, 0, 0, 0)
     | .net _ => ("other", 0, 0, 0, 0)
+    | .sendFailed t _ w => ("failed", t, w.mid, w.obs.getD 99, w.body)
     | .count n => ("count", n, 0, 0, 0)
     | .cancelled sv => ("cancelled", sv, 0, 0, 0)
     | .render sv v => ("render", sv, v, 0, 0)
@@ -744,5 +884,53 @@ example : c08Show (run c08Init c08RetxRun).2 =
    ("stop", 0, 0, 0, 0), ("deliver", 1, 0, 0, 0), ("cancelled", 0, 0, 0, 0), ("count", 0, 0, 0, 0),
    ("render", 1, 1, 0, 0), ("send", 110, 71, 99, 1), ("notify", 1, 99, 1, 1),
    ("send", 120, 500, 1, 1)] := by decide
+
+/-- a transport error reported from inside the send (`Ev.stepFail`): a CON registration; change 1 is
+notified and acknowledged; a second registration of the same endpoint on another token; for
+change 2 `sendmsg()` fails while the first registration's notification is handed to the transport -/
+def c08FailRun : List TEv :=
+  [⟨5, .recv 1 false (c08Get 70)⟩, ⟨5, .step 0 (.imm 69 false) true⟩,
+   ⟨100, .update none⟩, ⟨100, .step 0 (.imm 69 false) true⟩,
+   ⟨110, .recv 1 false { mtype := .ack, code := 0, mid := 500, token := [], obs := none, body := 0 }⟩,
+   ⟨115, .recv 1 false { c08Get 71 with token := [187] }⟩, ⟨115, .step 1 (.imm 69 false) true⟩,
+   ⟨120, .update none⟩, ⟨120, .stepFail 0 (.imm 69 false) true⟩,
+   ⟨120, .step 1 .susp true⟩, ⟨120, .step 0 .susp true⟩,
+   ⟨130, .update none⟩, ⟨130, .step 0 (.imm 69 false) true⟩, ⟨130, .step 1 (.imm 69 false) true⟩]
+
+/-- the notification of change 2 (Observe 2, message 501) is rendered and put on the pipe, but the
+send fails: nothing is transmitted; *both* registrations of the endpoint are stopped inside that
+step (the running task included); their next steps run the cancellation callbacks (count 2 → 1 → 0)
+and nothing else; change 3 produces nothing. -/
+example : c08Show (run c08Init c08FailRun).2 =
+  [("deliver", 0, 0, 0, 0), ("count", 1, 0, 0, 0), ("render", 0, 0, 0, 0), ("send", 5, 70, 0, 0),
+   ("notify", 0, 0, 0, 0), ("render", 0, 1, 0, 0), ("send", 100, 500, 1, 1), ("notify", 0, 1, 1, 0),
+   ("deliver", 1, 0, 0, 0), ("count", 2, 0, 0, 0), ("render", 1, 1, 0, 0), ("send", 115, 71, 0, 1),
+   ("notify", 1, 0, 1, 0),
+   ("render", 0, 2, 0, 0), ("failed", 120, 501, 2, 2), ("stop", 0, 0, 0, 0), ("stop", 1, 0, 0, 0),
+   ("notify", 0, 2, 2, 0),
+   ("cancelled", 1, 0, 0, 0), ("count", 1, 0, 0, 0), ("cancelled", 0, 0, 0, 0), ("count", 0, 0, 0, 0)] := by
+  decide
+
+/-- the hypotheses of `C08_end_sync_transport_error` are met before the failing step, and after it
+the running task is cancelled but not yet ended (hypotheses of `C08_cancelled_task_ends`) -/
+example : (run c08Init (c08FailRun.take 8)).1.ml.shutMsg = false ∧
+    (run c08Init (c08FailRun.take 8)).1.ml.incoming.map (fun i => (i.srv, i.remote)) = [(0, 1), (1, 1)] ∧
+    (run c08Init (c08FailRun.take 9)).1.ml.incoming = [] ∧
+    (run c08Init (c08FailRun.take 9)).1.tasks.map (fun t => (t.cancelReq, t.phase, t.runnable, t.cbRuns)) =
+      [(true, .waitTrig, true, 0), (true, .waitTrig, true, 0)] ∧
+    (run c08Init c08FailRun).1.observations = [] := by decide
+
+/-- a change that arrived while the failing notification was being rendered: the task goes on in
+the same step — it renders again and puts the result on the pipe, which has ended (discarded) — and
+is cancelled when it suspends -/
+example : c08Show (run c08Init
+    [⟨5, .recv 1 false (c08Get 70)⟩, ⟨5, .step 0 (.imm 69 false) true⟩,
+     ⟨100, .update none⟩, ⟨100, .step 0 .susp true⟩, ⟨110, .update none⟩,
+     ⟨120, .release 0 69 false⟩, ⟨120, .stepFail 0 (.imm 69 false) true⟩, ⟨120, .step 0 .susp true⟩]).2 =
+  [("deliver", 0, 0, 0, 0), ("count", 1, 0, 0, 0), ("render", 0, 0, 0, 0), ("send", 5, 70, 0, 0),
+   ("notify", 0, 0, 0, 0), ("render", 0, 1, 0, 0),
+   ("failed", 120, 500, 1, 1), ("stop", 0, 0, 0, 0), ("notify", 0, 1, 1, 0),
+   ("render", 0, 2, 0, 0), ("notify", 0, 2, 2, 0),
+   ("cancelled", 0, 0, 0, 0), ("count", 0, 0, 0, 0)] := by decide
 
 end Aiocoap.Observe.Server
